@@ -426,6 +426,26 @@ func genC15(t *rapid.T) c15Case {
 	}
 	names = append(names, "misc", "sqrt", "batchinvert", "mulByConstant")
 	c := c15Case{Op: rapid.SampledFrom(names).Draw(t, "op"), X: genRawOperand(t, "x"), Y: genRawOperand(t, "y"), Alias: rapid.IntRange(0, 4).Draw(t, "alias")}
+	if rapid.IntRange(0, 2).Draw(t, "related") == 0 { // the second operand stands in a relation to the first (in raw limbs)
+		x := hx.BigHex(c.X)
+		d := new(big.Int).Lsh(big.NewInt(int64(rapid.IntRange(1, 3).Draw(t, "rel_d"))), uint(64*rapid.IntRange(0, 3).Draw(t, "rel_limb")))
+		var y *big.Int
+		switch rapid.SampledFrom([]string{"same", "neg", "plus", "minus", "double", "half_sum"}).Draw(t, "rel") {
+		case "same":
+			y = x
+		case "neg":
+			y = new(big.Int).Sub(ref.R, x)
+		case "plus":
+			y = new(big.Int).Add(x, d)
+		case "minus":
+			y = new(big.Int).Sub(x, d)
+		case "double":
+			y = new(big.Int).Lsh(x, 1)
+		default: // x + y = r + d: the sum needs exactly one subtraction of the modulus and lands on a limb boundary
+			y = new(big.Int).Add(new(big.Int).Sub(ref.R, x), d)
+		}
+		c.Y = y.Mod(y, ref.R).Text(16)
+	}
 	switch c.Op {
 	case "batchinvert":
 		n := rapid.SampledFrom([]int{0, 1, 2, 3, 8, 255, 256, 257, 511, 512, 513, 1023, 1024, 1025, 1500, 2049, 4097}).Draw(t, "veclen")
